@@ -199,7 +199,9 @@ theorem accessors_recompose_mxc (x : Ext) (s : Str) (h : utf8Valid s = true) :
 /-! ## Accepted ⇒ required structure -/
 
 /-- Every accepted identifier has the structure the specification requires of its type: sigil, at
-most 255 bytes, no NUL or colon in the localpart, a server name that is a non-empty hostname / IPv4
+most 255 bytes; user IDs and room aliases: no NUL or colon in the localpart; room IDs: no NUL
+anywhere; event IDs with a server part: no colon in the localpart (NUL is *not* excluded there,
+see the example after `length_limit`); a server name that is a non-empty hostname / IPv4
 literal or a bracketed IPv6 literal with an optional port of 1–5 digits; key IDs: a non-empty
 colon-free algorithm and a key name valid for its type; MXC URIs: `mxc://`, such a server name, `/`, a
 media ID of letters, digits, `-`, `_`; room versions: 1–32 code points of `[a-zA-Z0-9.-]`; session
@@ -306,6 +308,14 @@ theorem length_limit (x : Ext) (k : Kind) (s : Str) (h : utf8Valid s = true)
   · rintro rfl
     simp only [struct, Bool.and_eq_true, decide_eq_true_eq] at hst
     exact hst.2
+
+/-- What the structure of an event ID does **not** include: NUL-freeness. `"$\0:a"` is an accepted
+event ID of the model (and of the real `event_id::validate`, which like the model only looks for
+the sigil, the length, and — when a colon is present — a valid server name after the first colon).
+The specification gives no character set for the opaque part of a v1/v2 event ID, so this is
+recorded as an observation, not as a finding. -/
+example : validate ⟨fun _ => false, fun _ => false, fun _ => false⟩ .event [36, 0, 58, 97] = .ok () ∧
+    struct (fun _ => false) .event [36, 0, 58, 97] = true := by decide
 
 /-! ## Recommended grammar ⇒ accepted -/
 
@@ -683,6 +693,74 @@ theorem constructor_accepted_client_secret (x : Ext) (s : Str) (hlen : s.length 
   · have : isLower b = true := by simp [isLower]; omega
     simp [alnum_eq, isAlnum, this]
 
+/-! ## `RoomOrAliasId` from / to `RoomId` and `RoomAliasId` -/
+
+/-- An accepted room alias starts with `#`. -/
+theorem alias_accepted_head (x : Ext) (s : Str) (h : validate x .alias s = .ok ()) : s.head? = some 35 := by
+  simp only [validate, roomAliasIdValidate, delimitedValidate, parseId] at h
+  cases hv : validateId s 35 with
+  | ok u => exact (validateId_ok_iff.mp hv).2
+  | err => simp [hv] at h
+  | panic => simp [hv] at h
+
+/-- An accepted room ID starts with `!`. -/
+theorem room_accepted_head (x : Ext) (s : Str) (h : validate x .room s = .ok ()) : s.head? = some 33 := by
+  simp only [validate, roomIdValidate] at h
+  cases hv : validateId s 33 with
+  | ok u => exact (validateId_ok_iff.mp hv).2
+  | err => simp [hv] at h
+  | panic => simp [hv] at h
+
+/-- **`From<&RoomId>` / `From<OwnedRoomId> for RoomOrAliasId`** (`from_borrowed(room_id.as_str())`,
+unchecked): every string the room ID parser accepts is accepted by the room-or-alias parser, so the
+conversion cannot produce a `RoomOrAliasId` that `parse` would refuse. -/
+theorem constructor_accepted_room_or_alias_from_room (x : Ext) (s : Str)
+    (h : validate x .room s = .ok ()) : validate x .roomOrAlias s = .ok () := by
+  have hh := room_accepted_head x s h
+  simp only [validate, roomOrAliasIdValidate, hh]
+  exact h
+
+/-- **`From<&RoomAliasId>` / `From<OwnedRoomAliasId> for RoomOrAliasId`**: every string the room
+alias parser accepts is accepted by the room-or-alias parser. -/
+theorem constructor_accepted_room_or_alias_from_alias (x : Ext) (s : Str)
+    (h : validate x .alias s = .ok ()) : validate x .roomOrAlias s = .ok () := by
+  have hh := alias_accepted_head x s h
+  simp only [validate, roomOrAliasIdValidate, hh]
+  exact h
+
+/-- **`TryFrom<&RoomOrAliasId> for &RoomId` / `&RoomAliasId`** (`variant()` looks at the first
+byte and the string is reinterpreted unchecked): an accepted room-or-alias ID is an accepted room ID
+when it starts with `!` and an accepted room alias when it starts with `#`, and it starts with one
+of the two. -/
+theorem room_or_alias_accepted_split (x : Ext) (s : Str) (h : validate x .roomOrAlias s = .ok ()) :
+    (s.head? = some 33 ∧ validate x .room s = .ok ()) ∨
+    (s.head? = some 35 ∧ validate x .alias s = .ok ()) := by
+  simp only [validate, roomOrAliasIdValidate] at h
+  cases hh : s.head? with
+  | none => simp [hh] at h
+  | some b =>
+    by_cases h35 : b = 35
+    · subst h35
+      simp only [hh] at h
+      exact Or.inr ⟨rfl, h⟩
+    · by_cases h33 : b = 33
+      · subst h33
+        simp only [hh] at h
+        exact Or.inl ⟨rfl, h⟩
+      · rw [hh] at h
+        split at h
+        · rename_i heq; injection heq with heq; exact absurd heq h35
+        · rename_i heq; injection heq with heq; exact absurd heq h33
+        · cases h
+
+/-- The hypothesis is satisfiable: `!r:a` is an accepted room ID (hence a room-or-alias ID). -/
+example (x : Ext) :
+    validate x .room (bs "!r:a") = .ok () ∧ validate x .roomOrAlias (bs "!r:a") = .ok () := by
+  have h : validate x .room (bs "!r:a") = .ok () := by
+    show roomIdValidate (bs "!r:a") = .ok ()
+    decide
+  exact ⟨h, constructor_accepted_room_or_alias_from_room x _ h⟩
+
 /-! ## `UserId` conformance accessors -/
 
 /-- On an accepted user ID the conformance accessors never panic; `validate_strict()` (the method)
@@ -901,6 +979,11 @@ example : struct ipv6Ref .user (bs "@a:[::1]:80") = true
 #print axioms constructor_with_bytes_partial
 #print axioms with_bytes_empty_panics
 #print axioms constructor_accepted_client_secret
+#print axioms alias_accepted_head
+#print axioms room_accepted_head
+#print axioms constructor_accepted_room_or_alias_from_room
+#print axioms constructor_accepted_room_or_alias_from_alias
+#print axioms room_or_alias_accepted_split
 #print axioms accessors_user_conformance
 #print axioms ipv6_reference_in_spec_grammar
 #print axioms server_accept_iff_grammar
